@@ -248,6 +248,9 @@ pub fn decode_icc(stream: &[u8]) -> Result<Vec<u8>> {
                 .read_exact(std::slice::from_mut(&mut command))
                 .is_err()
             {
+                if out.len() != output_size as usize {
+                    return Err(Error::InvalidIccStream("decoded ICC profile size mismatch"));
+                }
                 return Ok(out);
             }
             let tagcode = command & 63;
